@@ -279,6 +279,9 @@ def run(ctx, ck) -> None:
     ck.expect('V5', ok, sf or stokes.node, 'structure_for builds one ShapeDtypeStruct(shape, dtype) per letter of stokes', f'structure_for returns {show(t)}', instance='structure_for')
 
     # ------------------------------------------------------------------ V6 tree helpers
+    v6_decided = _tree_helpers_by_evaluation(ctx, ck, tree)
+    v6_start = len(ck.obs)
+
     def helper(name):
         fn = helpers.get(name)
         if fn is None:
@@ -327,6 +330,86 @@ def run(ctx, ck) -> None:
             if rnd == 'uniform':
                 ok = ok and body[2][3:] == (('var', 'low'), ('var', 'high'))
         ck.expect('V6', ok, fn, f'{name}: one key per leaf, jax.random.{rnd}(key, leaf.shape, leaf.dtype{", low, high" if rnd == "uniform" else ""})', f'{name} returns {show(t)[:160]}', instance=name)
+    # where the evaluation decided a helper, the clause on its written form is kept only when it agrees
+    ck.obs[:] = [o for i, o in enumerate(ck.obs) if not (i >= v6_start and o.rule.endswith('V6') and o.status != 'ok' and o.construct.split(' [')[-1].rstrip(']') in v6_decided)]
+
+
+def _tree_helpers_by_evaluation(ctx, ck, tree) -> set:
+    """V6 decided by evaluating the leaf-wise helpers (sa/axinterp.py) on symbolic pytrees (a tuple and a dict of two opaque
+    leaves): the result must have the structure of the argument and, leaf by leaf, the documented value.  Returns the names of
+    the helpers that were decided this way."""
+    from ..axinterp import Env, Func, Interp, Opaque, Raised, Ref, Sym, Undecided, UNK, module_of as _mo  # noqa: F401
+
+    world, table = ctx.world, ctx.table
+    decided: set = set()
+    A, B = Opaque('a'), Opaque('b')
+    trees = [(A, B), {'p': A, 'q': B}]
+
+    def run(name, *args, **kw):
+        fn = tree.defs.get(name)
+        if not isinstance(fn, ast.FunctionDef):
+            raise AnalysisError(f'anchor vanished: furax.tree.{name}')
+        it = Interp(world, table, budget=50_000)
+        it.symbolic = True
+        res = it.call_function(Func(fn, Env(tree)), list(args), dict(kw))
+        if it.degraded:
+            raise Undecided(it.degraded[0])
+        return fn, res
+
+    def leaves_of(t):
+        return list(t) if isinstance(t, tuple) else [t[k] for k in sorted(t)]
+
+    def same_structure(t, r):
+        return type(t) is type(r) and len(t) == len(r) and (not isinstance(t, dict) or sorted(t) == sorted(r))
+
+    def attr(x, name):
+        return Sym('.' + name, (x,))
+
+    def check(name, build, expect_leaf, what):
+        problems = []
+        fn = tree.defs.get(name)
+        try:
+            for t in trees:
+                fn, res = run(name, *build(t))
+                if res is UNK or not isinstance(res, (tuple, dict)) or not same_structure(t, res):
+                    problems.append(f'{name} does not return a pytree with the structure of its argument ({res!r:.80})')
+                    continue
+                for i, (x, y) in enumerate(zip(leaves_of(t), leaves_of(res))):
+                    if not expect_leaf(x, y, i, leaves_of(t)):
+                        problems.append(f'{name}: the leaf for {x.name} is {y!r:.160}')
+        except Raised as exc:
+            problems.append(f'{name} raises {exc.name} on a pytree of two leaves')
+        except Undecided:
+            return
+        decided.add(name)
+        ck.expect('V6', not problems, fn, f'{name}: {what} (evaluated on a tuple and a dict of two symbolic leaves)', f'{problems[0] if problems else ""}: not {what}', instance=name, semantic=True)
+
+    V = Opaque('value')
+    check('full_like', lambda t: (t, V), lambda x, y, i, ls: y == Sym('jnp.full', (attr(x, 'shape'), V, attr(x, 'dtype'))), 'every leaf becomes jnp.full(leaf.shape, value, leaf.dtype)')
+    for nm, val in (('zeros_like', 0), ('ones_like', 1)):
+        check(nm, lambda t: (t,), lambda x, y, i, ls, val=val: y == Sym('jnp.full', (attr(x, 'shape'), val, attr(x, 'dtype'))), f'every leaf becomes jnp.full(leaf.shape, {val}, leaf.dtype)')
+
+    def promoted(x, y, i, ls):
+        D = None
+        if isinstance(y, Sym) and y.op in ('jnp.astype',) and len(y.args) == 2 and y.args[0] is x:
+            D = y.args[1]
+        elif isinstance(y, Sym) and y.op == 'call' and isinstance(y.args[0], Sym) and y.args[0].op == '.astype' and y.args[0].args[0] is x and len(y.args) == 2:
+            D = y.args[1]
+        return isinstance(D, Sym) and D.op == 'jnp.result_type' and sorted(map(repr, D.args)) == sorted(map(repr, ls))
+
+    check('as_promoted_dtype', lambda t: (t,), promoted, 'every leaf is converted to jnp.result_type(*all the leaves themselves) - the leaves, not their dtypes, so that weakly typed leaves do not widen the others')
+    K = Opaque('key')
+
+    def random_leaf(rnd, extra):
+        def ok(x, y, i, ls):
+            want_key = Sym('jax.random.split[]', (K, len(ls), i))
+            return y == Sym(f'jax.random.{rnd}', (want_key, attr(x, 'shape'), attr(x, 'dtype')) + extra)
+        return ok
+
+    check('normal_like', lambda t: (t, K), random_leaf('normal', ()), 'leaf i is jax.random.normal(key_i, leaf.shape, leaf.dtype) with one key of split(key, n) per leaf, in order')
+    LO, HI = Opaque('low'), Opaque('high')
+    check('uniform_like', lambda t: (t, K, LO, HI), random_leaf('uniform', (LO, HI)), 'leaf i is jax.random.uniform(key_i, leaf.shape, leaf.dtype, low, high) with one key of split(key, n) per leaf, in order')
+    return decided
 
 
 def controls(world: World) -> list[Control]:
